@@ -55,7 +55,7 @@ class Shared:
 
     def __init__(self, rng):
         cs = []
-        self.specs = [rand_shell(rng, rng.randint(0, 2), cs, nprim=rng.randint(1, 2), nseg=rng.randint(1, 2), exp_lo=0.1, exp_hi=10.0)
+        self.specs = [rand_shell(rng, rng.randint(0, 2), cs, nprim=rng.randint(1, 3), nseg=rng.randint(1, 2), exp_lo=0.1, exp_hi=10.0)
                       for _ in range(rng.randint(1, 3))]
         self.basis = make_basis(self.specs)
         n = sum(s.size for s in self.specs)
@@ -142,6 +142,31 @@ def catalogue(sh):
     return calls
 
 
+def history_independence(run, sh, trace):
+    """the value returned depends only on the arguments: a shell whose parameters were updated (and renormalised) must give the
+    same arrays as a shell constructed afresh with the same parameters"""
+    from gbasis.contractions import GeneralizedContractionShell as GCS
+    from gbasis.evals.eval import evaluate_basis
+    from gbasis.integrals.kinetic_energy import kinetic_energy_integral
+    from gbasis.integrals.overlap import overlap_integral
+    from gbasis.integrals.point_charge import point_charge_integral
+    fresh = [type(s)(s.angmom, np.array(s.coord), np.array(s.coeffs), np.array(s.exps), s.coord_type) for s in sh.basis]
+    fs = [("overlap_integral", overlap_integral), ("kinetic_energy_integral", kinetic_energy_integral),
+          ("evaluate_basis", lambda b: evaluate_basis(b, sh.points)),
+          ("point_charge_integral", lambda b: point_charge_integral(b, sh.cpos, sh.charges))]
+    ok = True
+    for fname, f in fs:
+        r_hist, r_new = f(sh.basis), f(fresh)
+        run.count("history-independence " + fname)
+        if r_hist.shape != r_new.shape or np.abs(r_hist - r_new).max() > 1e-10 * max(1.0, np.abs(r_new).max()):
+            run.violation(f"{fname} on a shell whose parameters were updated and renormalised differs from the same call on a shell "
+                          f"constructed with the same parameters (max deviation {np.abs(r_hist - r_new).max():.3e}): the result depends on the "
+                          "history of the object, not only on the arguments",
+                          {"case": "history", "trace": list(trace), "function": fname, "signature": {"kind": "purity-history"}})
+            ok = False
+    return ok
+
+
 def result_bytes(r):
     if isinstance(r, np.ndarray):
         return ("nd", r.shape, r.tobytes())
@@ -162,13 +187,19 @@ def history(run, length, seed_tag):
         if rng.random() < 0.12:
             # parameter update followed by renormalisation
             s = rng.choice(sh.basis)
-            new = s.exps * core.snap(rng.uniform(0.8, 1.25), 6)
-            s.exps = new
+            kind = rng.choice(["exps", "exps", "coeffs", "coord"])
+            if kind == "exps":
+                s.exps = s.exps * np.array([core.snap(rng.uniform(0.6, 1.6), 6) for _ in range(s.exps.size)])
+            elif kind == "coeffs":
+                s.coeffs = s.coeffs * np.array([[core.snap(rng.uniform(0.5, 1.5), 6)] for _ in range(s.coeffs.shape[0])])
+            else:
+                s.coord = s.coord + np.array([core.snap(rng.uniform(-0.5, 0.5), 6) for _ in range(3)])
             s.assign_norm_cont()
             from gbasis.integrals.overlap import overlap_integral
             ov = overlap_integral([s])
-            trace.append("update+assign_norm_cont")
+            trace.append("update(%s)+assign_norm_cont" % kind)
             epoch += 1
+            ok = history_independence(run, sh, trace) and ok
             if np.abs(np.diag(ov) - 1).max() > 1e-8:
                 run.violation("after a parameter update followed by assign_norm_cont the shell is not unit-normalised",
                               {"case": "renormalise", "trace": trace, "signature": {"kind": "renormalise"}})
